@@ -322,7 +322,8 @@ func (t *Task) BuildTaskCommand(role parentRole) (err error) {
 				return fmt.Errorf("cannot resolve templates for task defaults: %w", err)
 			}
 
-			varStack, err = gera.MakeMapWithMap(varStack).WrappedAndFlattened(gera.MakeMapWithMap(localDefaults))
+			parentVarStack := varStack
+			varStack, err = gera.MakeMapWithMap(parentVarStack).WrappedAndFlattened(gera.MakeMapWithMap(localDefaults))
 			if err != nil {
 				log.WithError(err).
 					WithField("partition", role.GetEnvironmentId().String()).
@@ -346,9 +347,9 @@ func (t *Task) BuildTaskCommand(role parentRole) (err error) {
 				return fmt.Errorf("cannot resolve templates for task vars: %w", err)
 			}
 
-			// We wrap the parent varStack around the task's already processed Defaults,
-			// ensuring that any taskclass Defaults are overridden by anything else.
-			varStack, err = gera.MakeMapWithMap(varStack).WrappedAndFlattened(gera.MakeMapWithMap(localVars))
+			// We wrap the parent varStack around the task's already processed Vars and Defaults,
+			// ensuring that any taskclass Defaults are overridden by anything else, including the taskclass Vars.
+			varStack, err = gera.MakeMapWithMap(parentVarStack).WrappedAndFlattened(gera.MakeMapWithMap(localVars).Wrap(gera.MakeMapWithMap(localDefaults)))
 			if err != nil {
 				log.WithError(err).
 					WithField("partition", role.GetEnvironmentId().String()).
